@@ -15,7 +15,7 @@
 (* property talks about.  Consumption never blocks on a disagreement: a    *)
 (* disagreement is always an invariant, never a stuck trace.               *)
 (***************************************************************************)
-EXTENDS Sem, Json, IOUtils
+EXTENDS Sem, Json, IOUtils, SequencesExt
 
 Trace == ndJsonDeserialize(IOEnv.TRACE)
 N == Len(Trace)
@@ -208,6 +208,13 @@ C12_NoPanic ==
   /\ Check("C12", "panic", chk.obsst # "panic")
   /\ Check("C12", "a failed execution returned postings or metadata",
            (chk.kind = "outcome" /\ ~ObsOk) => (chk.obs = <<>> /\ ~O.leak))
+
+\* ---- behaviour generation for the relational checks C08 / C09: the state after every statement
+\* (visible balances following the observed postings and the save formula) is printed, one line per split point
+VisTriples(v) == SetToSeq({<<k[1], k[2], v[k]>> : k \in DOMAIN v})
+EmitSplits ==
+  (chk.kind \in {"none", "send", "save", "call"} /\ ~chk.huge /\ env.err = "" /\ (chk.kind = "none" \/ ObsOk)) =>
+     PrintT("SPLIT " \o ToJson([id |-> C.id, k |-> si - 1, after |-> chk.kind, vis |-> VisTriples(S.vis)]))
 
 \* bookkeeping
 AllConsumed == TLCGet(1) = Cardinality(CaseLines)
